@@ -33,9 +33,9 @@ def shards(tier):
 def required_classes(tier):
     out = []
     for g in ("g1", "g2"):
-        out += ["%s:sub:%s" % (g, k) for k in ("kG", "kG+T", "T", "random", "infinity", "rescaled", "large-cofactor")]
+        out += ["%s:sub:%s" % (g, k) for k in ("T:endomorphism-eigenspace", "kG", "kG+T", "T", "random", "infinity", "rescaled", "large-cofactor")]
         out += ["%s:clear:%s" % (g, k) for k in ("random", "subgroup", "torsion", "infinity")]
-    out += ["constants"]
+    out += ["constants", "soak:distinct-points"]
     return out
 
 
@@ -117,6 +117,13 @@ def run(rec):
                 rec.case("g%d:clear:torsion" % g, ("clear", g, T, q))
                 call(clear, L(E.add(kG, T), scaled=True))
                 call(clear, L(T))
+            # torsion points in the eigenspaces of the curve endomorphism (endomorphism-based subgroup tests are the usual fast path)
+            for q in [q_ for q_ in factors if q_ % 3 == 1][: (2 if quick else 9)]:
+                for V in CG.eigen_torsion(E, order, q, rng):
+                    kG = E.mul(gen, rng.randrange(1, R))
+                    sc("T:endomorphism-eigenspace", V)
+                    sc("T:endomorphism-eigenspace", E.add(kG, V), scaled=True)
+                    sc("T:endomorphism-eigenspace", E.add(kG, E.mul(V, rng.randrange(1, q))))
             # large cofactor order: [r]X for random X has order dividing h (almost surely large)
             X = E.rand_point(rng)
             big = E.mul(X, R)
@@ -135,8 +142,34 @@ def run(rec):
             kG = E.mul(gen, rng.randrange(1, R))
             rec.case("g%d:clear:subgroup" % g, ("clear", g, kG))
             call(clear, L(kG, scaled=True))
+            if g == 1 and rep == 0 and (rec.shard == 7 or not quick):
+                soak(rec, sub, rng)
+            elif g == 1 and rep == 0:
+                rec.case("soak:distinct-points", None, nontrivial=False)
             # the order-r point obtained from a random point by the *true* cofactor must be accepted
             sc("kG", E.mul(E.rand_point(rng), h), scaled=True)
+
+
+def soak(rec, sub, rng):
+    from .common import soak_size, soak_then_reprobe
+    G1m, _ = params.bls_generators()
+    T3 = CG.torsion_point(E1, params.BLS_H1 * R, 11, rng)
+    A_ = E1.mul(G1m, rng.randrange(1, R))
+    Bad = E1.add(A_, T3)
+
+    def L1(Pt):
+        return CG.to_lib(MK, Pt, 1, rng)
+
+    def distinct_points():
+        Pt = A_
+        j = 0
+        while True:
+            j += 1
+            Pt = E1.add(Pt, G1m)
+            X = Pt if j % 2 else E1.add(Pt, T3)
+            yield (lambda X=X: call(sub, L1(X)))
+    soak_then_reprobe(rec, "distinct-points", [lambda: call(sub, L1(A_)), lambda: call(sub, L1(Bad)), lambda: call(sub, L1(None))], distinct_points(),
+                      soak_size(["py_ecc.bls.g2_primitives", "py_ecc.optimized_bls12_381.optimized_curve"]))
 
 
 def replay(rec, case):
